@@ -15,6 +15,12 @@
 (* in the middle of a unit: Tear).  Crash is enabled in every live state and  *)
 (* loses whatever is not durable.                                             *)
 (*                                                                             *)
+(* The base name may have been used before: old is the set of files of an     *)
+(* earlier complete run (event file complete, companion with its marker) that *)
+(* are still in place.  Opening a file truncates it.  The companion is opened *)
+(* first: otherwise a kill between the two opens (or a refusal, if the second *)
+(* open were delayed) leaves the old marker next to an emptied event file.    *)
+(*                                                                             *)
 (* The event file is a stream of units <<id, part>>: record id consists of    *)
 (* Parts units (the real program: 1 = the "id time nuclide" line, 2 = the     *)
 (* rest of the record up to and including the blank line).                    *)
@@ -28,9 +34,10 @@ VARIABLES
   n,        \* records produced so far
   tw, tdur, tornT, openT,   \* event file: units produced, how many are durable, partial next unit durable?, stream open?
   cw, cdur, tornC, openC,   \* companion file: lines (keys) produced, durable count, partial next line durable?, open?
-  outcome   \* how the process ended: [rc, msg] ; rc = -1 while alive or when killed
+  outcome,  \* how the process ended: [rc, msg] ; rc = -1 while alive or when killed
+  old       \* files of an earlier complete run on the same base name not yet truncated by this one
 
-vars == <<plan, phase, n, tw, tdur, tornT, openT, cw, cdur, tornC, openC, outcome>>
+vars == <<plan, phase, n, tw, tdur, tornT, openT, cw, cdur, tornC, openC, outcome, old>>
 
 Status == "@status"
 Phases == {"start", "parsed", "opened", "header", "events", "closedT", "status", "closed",
@@ -52,9 +59,10 @@ Fresh ==
   /\ cw = <<>> /\ cdur = 0 /\ tornC = FALSE /\ openC = FALSE
   /\ outcome = [rc |-> -1, msg |-> FALSE]
 
-Init == plan \in Plans /\ Fresh
+OldStates == {{}, {"t", "c"}}
+Init == plan \in Plans /\ Fresh /\ old \in OldStates
 
-files == <<tw, tdur, tornT, openT, cw, cdur, tornC, openC>>
+files == <<tw, tdur, tornT, openT, cw, cdur, tornC, openC, old>>
 
 Parse ==
   /\ phase = "start" /\ plan.verdict # "usage"
@@ -82,12 +90,14 @@ Cleanup(f) ==
   /\ phase = "refused"
   /\ \/ f = "t" /\ openT /\ openT' = FALSE /\ UNCHANGED openC
      \/ f = "c" /\ openC /\ openC' = FALSE /\ UNCHANGED openT
-  /\ UNCHANGED <<plan, phase, n, tw, tdur, tornT, cw, cdur, tornC, outcome>>
+  /\ UNCHANGED <<plan, phase, n, tw, tdur, tornT, cw, cdur, tornC, outcome, old>>
 
+\* opening truncates; the event file is emptied only once the old completion marker is gone
 OpenFile(f) ==
   /\ phase = "parsed" /\ plan.verdict # "usage"
-  /\ \/ f = "t" /\ ~openT /\ openT' = TRUE /\ UNCHANGED openC
+  /\ \/ f = "t" /\ ~openT /\ "c" \notin old /\ openT' = TRUE /\ UNCHANGED openC
      \/ f = "c" /\ ~openC /\ openC' = TRUE /\ UNCHANGED openT
+  /\ old' = old \ {f}
   /\ phase' = IF openT' /\ openC' THEN "opened" ELSE "parsed"
   /\ UNCHANGED <<plan, n, tw, tdur, tornT, cw, cdur, tornC, outcome>>
 
@@ -99,51 +109,51 @@ InitGen ==
 Header(k) ==
   /\ phase = "header" /\ k \in (plan.req \cup plan.opt) \ Range(cw)
   /\ cw' = Append(cw, k)
-  /\ UNCHANGED <<plan, phase, n, tw, tdur, tornT, openT, cdur, tornC, openC, outcome>>
+  /\ UNCHANGED <<plan, phase, n, tw, tdur, tornT, openT, cdur, tornC, openC, outcome, old>>
 
 \* the first record is produced only once every setting has been reported
 WriteEvent ==
   /\ plan.verdict \in {"run", "unspecified"}
   /\ phase \in {"header", "events"} /\ plan.req \subseteq Range(cw) /\ n < plan.n
   /\ tw' = tw \o Units(n) /\ n' = n + 1 /\ phase' = "events"
-  /\ UNCHANGED <<plan, tdur, tornT, openT, cw, cdur, tornC, openC, outcome>>
+  /\ UNCHANGED <<plan, tdur, tornT, openT, cw, cdur, tornC, openC, outcome, old>>
 
 FlushT(k) ==
   /\ openT /\ k \in 1..(Len(tw) - tdur)
   /\ tdur' = tdur + k /\ tornT' = FALSE
-  /\ UNCHANGED <<plan, phase, n, tw, openT, cw, cdur, tornC, openC, outcome>>
+  /\ UNCHANGED <<plan, phase, n, tw, openT, cw, cdur, tornC, openC, outcome, old>>
 
 TearT ==
   /\ openT /\ tdur < Len(tw)
   /\ tornT' = TRUE
-  /\ UNCHANGED <<plan, phase, n, tw, tdur, openT, cw, cdur, tornC, openC, outcome>>
+  /\ UNCHANGED <<plan, phase, n, tw, tdur, openT, cw, cdur, tornC, openC, outcome, old>>
 
 FlushC(k) ==
   /\ openC /\ k \in 1..(Len(cw) - cdur)
   /\ cdur' = cdur + k /\ tornC' = FALSE
-  /\ UNCHANGED <<plan, phase, n, tw, tdur, tornT, openT, cw, openC, outcome>>
+  /\ UNCHANGED <<plan, phase, n, tw, tdur, tornT, openT, cw, openC, outcome, old>>
 
 TearC ==
   /\ openC /\ cdur < Len(cw)
   /\ tornC' = TRUE
-  /\ UNCHANGED <<plan, phase, n, tw, tdur, tornT, openT, cw, cdur, openC, outcome>>
+  /\ UNCHANGED <<plan, phase, n, tw, tdur, tornT, openT, cw, cdur, openC, outcome, old>>
 
 \* the event stream is closed when all N records are produced and everything produced is durable
 CloseEvents ==
   /\ phase = "events" /\ n = plan.n /\ tdur = Len(tw)
   /\ openT' = FALSE /\ phase' = "closedT"
-  /\ UNCHANGED <<plan, n, tw, tdur, tornT, cw, cdur, tornC, openC, outcome>>
+  /\ UNCHANGED <<plan, n, tw, tdur, tornT, cw, cdur, tornC, openC, outcome, old>>
 
 \* the completion marker is produced after the event file is closed
 WriteStatus ==
   /\ phase = "closedT"
   /\ cw' = Append(cw, Status) /\ phase' = "status"
-  /\ UNCHANGED <<plan, n, tw, tdur, tornT, openT, cdur, tornC, openC, outcome>>
+  /\ UNCHANGED <<plan, n, tw, tdur, tornT, openT, cdur, tornC, openC, outcome, old>>
 
 CloseInfo ==
   /\ phase = "status" /\ cdur = Len(cw)
   /\ openC' = FALSE /\ phase' = "closed"
-  /\ UNCHANGED <<plan, n, tw, tdur, tornT, openT, cw, cdur, tornC, outcome>>
+  /\ UNCHANGED <<plan, n, tw, tdur, tornT, openT, cw, cdur, tornC, outcome, old>>
 
 Exit ==
   /\ phase = "closed"
@@ -154,7 +164,7 @@ Exit ==
 Crash ==
   /\ phase \in Alive
   /\ phase' = "crashed" /\ openT' = FALSE /\ openC' = FALSE
-  /\ UNCHANGED <<plan, n, tw, tdur, tornT, cw, cdur, tornC, outcome>>
+  /\ UNCHANGED <<plan, n, tw, tdur, tornT, cw, cdur, tornC, outcome, old>>
 
 Next ==
   \/ Parse \/ Usage
@@ -181,21 +191,26 @@ TypeOK ==
   /\ tdur \in 0..Len(tw) /\ cdur \in 0..Len(cw)
   /\ tornT \in BOOLEAN /\ tornC \in BOOLEAN /\ openT \in BOOLEAN /\ openC \in BOOLEAN
   /\ outcome.rc \in {-1, 0, 1} /\ outcome.msg \in BOOLEAN
+  /\ old \subseteq {"t", "c"}
 
 \* the completion marker is visible in the companion file (a torn marker line counts as visible)
-StatusVisible == Status \in Range(D0c) \/ (tornC /\ cw[cdur + 1] = Status)
+NewStatusVisible == Status \in Range(D0c) \/ (tornC /\ cw[cdur + 1] = Status)
+StatusVisible == "c" \in old \/ NewStatusVisible
 
 \* "carries its completion marker only if the event file is complete":
-\* exactly N records, ids 0..N-1 in order, nothing partial, stream closed
-EventFileComplete == D0t = AllUnits(plan.n) /\ ~tornT /\ ~openT
-StatusOnlyIfComplete == StatusVisible => EventFileComplete
+\* exactly N records, ids 0..N-1 in order, nothing partial, stream closed - or, for the marker of an earlier run,
+\* that run's (complete) event file still untouched
+EventFileComplete == "t" \notin old /\ D0t = AllUnits(plan.n) /\ ~tornT /\ ~openT
+StatusOnlyIfComplete ==
+  /\ "c" \in old => "t" \in old
+  /\ NewStatusVisible => EventFileComplete
 
 \* at every instant (so: at every kill point) the event file is a prefix of the complete one:
 \* consecutive ids from 0, never more than N records
 AlwaysPrefix == IsPrefix(tw, AllUnits(plan.n))
 
 \* "refused before any event is written": a refused or usage run has produced no byte of any record
-RefusedNoRecord == phase \in {"refused", "usage"} => (tw = <<>> /\ ~tornT /\ tdur = 0 /\ ~StatusVisible)
+RefusedNoRecord == phase \in {"refused", "usage"} => (tw = <<>> /\ ~tornT /\ tdur = 0 /\ ~NewStatusVisible)
 
 \* a refusal is detectable
 RefusalDetectable == phase = "refused" => (outcome.rc # 0 \/ outcome.msg)
